@@ -96,8 +96,12 @@ func c10Bytes(c *hx.Ctx, b []byte, class string) {
 		if err != nil {
 			c.Failf("extract-from-rejected-id", d2, "ExtractPublicKey succeeded on bytes IDFromBytes rejects")
 		}
-		// matches exactly when derived
+		// the id must be the one derived from the key it yields
 		der, _ := peer.IDFromPublicKey(pk)
+		if string(der) != string(b) {
+			c.Failf("extract-noncanonical-id", d2, "ExtractPublicKey succeeded but IDFromPublicKey(result) = %x is a different id", []byte(der))
+		}
+		// matches exactly when derived
 		m := peer.ID(b).MatchesPublicKey(pk)
 		if m != (string(der) == string(b)) {
 			c.Failf("matches-not-derived", d2, "MatchesPublicKey=%v but derived-id-equality=%v", m, string(der) == string(b))
@@ -277,7 +281,7 @@ func c10(c *hx.Ctx) {
 		body := id[2:] // marshalled public key (36 bytes: code and length are one byte each)
 		var b []byte
 		var class string
-		switch c.Rng.Intn(14) {
+		switch c.Rng.Intn(16) {
 		case 0:
 			b, class = id[:c.Rng.Intn(len(id))], "truncated"
 		case 1:
@@ -315,6 +319,27 @@ func c10(c *hx.Ctx) {
 		case 11: // digest of 128..200 bytes: two-byte length varint
 			d := c.RandBytes(128 + c.Rng.Intn(72))
 			b, class = cat(uv(0), uv(uint64(len(d))), d), "identity-long-digest"
+		case 12, 13: // alias ids: other encodings of an id that carries a valid key
+			key := id[len(id)-32:]
+			switch c.Rng.Intn(6) {
+			case 0: // 80 00 24 ...
+				b = cat([]byte{0x80, 0x00}, id[1:])
+			case 1: // 00 a4 00 ...
+				b = cat(id[:1], []byte{0x80 | byte(len(body)), 0x00}, body)
+			case 2: // unknown field inside the embedded PublicKey, length adjusted
+				pb := cat(body, pbVarint(3, uint64(c.Rng.Intn(100))))
+				b = cat(uv(0), uv(uint64(len(pb))), pb)
+			case 3: // fields re-ordered
+				pb := cat(pbBytes(2, key), pbVarint(1, 1))
+				b = cat(uv(0), uv(uint64(len(pb))), pb)
+			case 4: // duplicate field, last wins
+				pb := cat(pbVarint(1, 0), body)
+				b = cat(uv(0), uv(uint64(len(pb))), pb)
+			default: // non-minimal varint inside the embedded key
+				pb := cat(pbTag(1, 0), nonMinimal(1, 1+c.Rng.Intn(3)), pbBytes(2, key))
+				b = cat(uv(0), uv(uint64(len(pb))), pb)
+			}
+			class = "alias-of-valid-id"
 		default: // embedded protobuf irregularities
 			ty := uint64(1)
 			if c.Rng.Intn(5) == 0 {
